@@ -378,13 +378,28 @@ def check(ctx):
     t = ast.unparse(ht.node)
     ctx.ob("R5", f"{ht.qual}::age-vs-timeout", "self.age > self._timeout_in_seconds" in t, f"{ht.qual} no longer compares age with the timeout", ht.loc)
     nb = 0
-    for c in repo.subclasses(BASE):
-        for m in c.methods.values():
-            if m.is_static and m.name in ("request", "set", "set_value", "keypress"):
-                nb += 1
-                from ..handlermodel import builder_keywords
-                kw = builder_keywords(repo, m)
-                has = "timeout" in kw and "PROTOCOL_TIMEOUT_IN_SECONDS" in ast.unparse(kw["timeout"])
-                ctx.ob("R5", f"{m.qual}::has-timeout", has, f"{m.qual} builds a request without timeout=GeckoConfig.PROTOCOL_TIMEOUT_IN_SECONDS (wait_for_response would assert)", m.loc)
+    # every request builder arms the timeout wait_for_response relies on: the request is built by interpretation and asked
+    # when it times out (vlib/handlermodel.builder_armed) - whichever way the keyword reaches the constructor
+    from ..handlermodel import builder_armed
+    from . import c04 as _c04
+    from ..absint import Interp as _I5, PyRaise as _P5, Undecided as _U5
+    try:
+        T_ = _I5(repo).eval(ast.parse("GeckoConfig.PROTOCOL_TIMEOUT_IN_SECONDS", mode="eval").body, {"__mod__": repo.method(BASE, "wait_for_response").mod, "__class__": None})
+    except (_P5, _U5):
+        T_ = None
+    if not isinstance(T_, (int, float)):
+        T_ = repo.try_fold(ast.parse("GeckoConfig.PROTOCOL_TIMEOUT_IN_SECONDS", mode="eval").body, repo.mod("config.py"))
+    seen_b = set()
+    for cname_, builder_, args_, _exp, _desc in _c04.message_table():
+        if builder_ not in ("request", "full_request", "set", "set_value", "keypress") or (cname_, builder_) in seen_b:
+            continue
+        seen_b.add((cname_, builder_))
+        m = repo.method(cname_, builder_)
+        nb += 1
+        pr = builder_armed(repo, cname_, builder_, args_)
+        has = "raises" not in pr and pr["timeout"] is not None and pr["timeout"] > 0 and (T_ is None or pr["timeout"] == T_)
+        ctx.ob("R5", f"{m.qual}::has-timeout", has,
+               f"{m.qual} builds a request that {'raises ' + pr['raises'] if 'raises' in pr else 'times out after ' + str(pr['timeout']) + ' s'}; expected GeckoConfig.PROTOCOL_TIMEOUT_IN_SECONDS = {T_} "
+               f"(with no timeout wait_for_response asserts; with another one the attempt's time bound is off)", m.loc)
     ctx.floor("R5", "request builders", nb, 9)
     ctx.assume("asyncio.Lock hands over in FIFO order and tasks interleave only at await")
